@@ -132,7 +132,24 @@ def run(ctx):
         real = bind(seedf.read_bytes(), libs, gs) if seedf is not None else b"@Author x;\n"
         for label, data in fuzz.keyword_sweep(gs, kws, (b"@Author x;", real), ctx.thorough):
             sweep.append((ext, label, data))
-    ctx.cov["keyword_sweep"] = {"inputs_run": len(sweep)}
+    # self-referential definitions: every statement of the corpus of the form  @Keyword<...> 'name' 'expression'  (function
+    # evolutions, @Real, material properties given by formulae...) is rewritten so that the expression refers to the name it defines
+    selfref, seen_kw = [], {}
+    pat = re.compile(rb"(@\w+(?:<[^>\n]*>)?)\s+(['\"])(\w+)\2\s+(['\"])([^'\"\n]*)\4")
+    for f in own + gsel.sample(repo_m, min(len(repo_m), 150)) + repo_p:
+        data = bind(f.read_bytes(), libs, gsel)
+        for m in pat.finditer(data):
+            kw = m.group(1)
+            if seen_kw.get(kw, 0) >= (6 if ctx.thorough else 2):
+                continue
+            seen_kw[kw] = seen_kw.get(kw, 0) + 1
+            q, name = m.group(2), m.group(3)
+            for expr in (name, b"2*" + name + b"+1"):
+                stmt = kw + b" " + q + name + q + b" " + q + expr + q
+                selfref.append((f.suffix if f.suffix in (".mtest", ".ptest") else ".mtest", "%s/self-reference" % kw.decode(),
+                                data[:m.start()] + stmt + data[m.end():]))
+    sweep += selfref
+    ctx.cov["keyword_sweep"] = {"inputs_run": len(sweep), "self_referential_definitions": len(selfref), "keywords_with_a_named_expression": sorted(k.decode() for k in seen_kw)}
 
     def one_sweep(args):
         k, (ext, label, data) = args
